@@ -44,6 +44,8 @@ def mode_tla(m):
 def site_of(case, step):
     if 1 <= step <= len(case['events']):
         e = case['events'][step - 1]
+        if e['a'] in ('write', 'cli'):
+            return e['a'] + ':' + e.get('fmt', e.get('src', '')) + ('+lig' if e.get('lig') == 'T' else '')
         if e['a'] == 'binarize':
             m = e['mode']
             return 'binarize:' + ('markov' + ('+nofanout' if m['nofanout'] == 'T' else '') if m['markov'] == 'T' else 'det')
@@ -82,6 +84,22 @@ def run(prop, tier, seed, replay=None):
                     if rnd.random() < 0.5:
                         Ts.append(Ts[0])
                     todo_tb.append(('B-%06d' % k, Ts, [rnd.choice(modes), rnd.choice(modes)] if modes else [], None, seed + k))
+            todo_files = []
+            if prop == 'C09':
+                trees = []
+                for b in EX_BOUNDS[tier]:
+                    r = core.tlc(w, 'MC_Extract', CFG_EX % b, coverage=True, timeout=3000)
+                    core.tlc_ok(r, 'MC_Extract')
+                    rep.add_mc('MC_Extract %s' % json.dumps(b, sort_keys=True), r, 'trees whose grammars are written')
+                    trees.extend(c['tree'] for c in r.cases)
+                nf = 400 if tier == 'quick' else 4000
+                for k in range(nf):
+                    Ts = [rnd.choice(trees) for _ in range(rnd.randint(1, 3))]
+                    if k % 3 == 0:
+                        Ts = [treeio.random_tree(rnd, nmax=8, maxcons=6, labels=('A', 'B', 'NP'), tags=('T', 'A'), chain=0.3)
+                              for _ in range(rnd.randint(1, 3))]
+                    bm = None if k % 2 == 0 else rnd.choice(ALL_MODES)
+                    todo_files.append(('F-%05d' % k, Ts, bm, None, seed + k, k % 8 == 0))
             if prop in ('C07', 'C08'):
                 for b in BIN_BOUNDS[tier]:
                     r = core.tlc(w, 'MCB', CFG_BIN % b, coverage=True, timeout=3000)
@@ -97,7 +115,7 @@ def run(prop, tier, seed, replay=None):
                         if prop == 'C07':
                             todo_rule.append(('Q-%06d' % len(todo_rule), c['func'], c['lin'], ALL_MODES, None))
             rep.exhaustive = True
-            nrand = (200 if tier == 'quick' else 2500)
+            nrand = 0 if prop == 'C09' else (200 if tier == 'quick' else 2500)
             for k in range(nrand):
                 Ts = [treeio.random_tree(rnd, nmax=7 if tier == 'quick' else 10, maxcons=6, labels=('A', 'B', 'NP'),
                                          tags=('T', 'A'), chain=0.3) for _ in range(rnd.randint(1, 3))]
@@ -105,7 +123,8 @@ def run(prop, tier, seed, replay=None):
                     Ts.append(Ts[0])
                 modes = [] if prop == 'C06' else [rnd.choice(ALL_MODES) for _ in range(3)]
                 todo_tb.append(('R-%05d' % k, Ts, modes, None, seed + k, 'random'))
-            cases = core.pmap(fg.record_treebank_case, todo_tb) + core.pmap(fg.record_rule_case, todo_rule)
+            cases = core.pmap(fg.record_treebank_case, todo_tb) + core.pmap(fg.record_rule_case, todo_rule) \
+                + core.pmap(fg.record_files_case, todo_files, chunksize=8)
         byid = {c['id']: c for c in cases}
         verdicts, wall = core.validate_traces(w, 'Trace_Grammar', cases, cfg=TRACE_CFG, chunk=400)
         rep.extra['trace_validation_wall_s'] = round(wall, 1)
